@@ -205,9 +205,9 @@ func merkleCase(h *hctx, leaves [][]byte, r *lib.RNG, tamper bool) {
 			h.violate("merkle-verify-panics", fmt.Sprintf("Proof.Verify panics (%s): %v", what, err), rp)
 			continue
 		}
-		model := h.ask("verify " + h.tt.termList(proof) + " " + h.tt.termOf(rt) + " " + hx(leaf) + " " + strconv.FormatUint(uint64(index), 10))
-		h.compare("merkle-verify", map[string]any{"leaves": hexList(leaves), "tamper": what, "index": index, "leaf": hx(leaf)},
-			model, strconv.FormatBool(good))
+		h.check("merkle-verify", map[string]any{"leaves": hexList(leaves), "tamper": what, "index": index, "leaf": hx(leaf)},
+			"verify "+h.tt.termList(proof)+" "+h.tt.termOf(rt)+" "+hx(leaf)+" "+strconv.FormatUint(uint64(index), 10),
+			strconv.FormatBool(good), false)
 		if good {
 			h.res.Hit("merkle-tamper:accepted")
 		}
